@@ -417,7 +417,17 @@ func main() {
 			r.Sample(map[string]any{"case": c, "source": srcName[c.Source], "discard_allowed_by_property": allowed(c), "outcome": o})
 		}
 	}
+	supDepth := 4
+	if r.Thorough() {
+		supDepth = 5
+	}
 	if r.Replay != "" {
+		var sr supReplay
+		r.LoadReplay(&sr)
+		if sr.Path == "supplier" {
+			runSupplier(r, scratch, len(sr.Ops), sr.Ops)
+			finish()
+		}
 		var c tcase
 		r.LoadReplay(&c)
 		check(c, exec(c))
@@ -442,6 +452,8 @@ func main() {
 	for i := range cases {
 		check(cases[i], outs[i])
 	}
+	// supplier side (parent process only): real paymentChecker between a scripted chain and the real shard
+	supComplete := runSupplier(r, scratch, supDepth, nil)
 
 	for p, n := range perPath {
 		r.Set("discards_via_"+p, n.Load())
@@ -458,9 +470,10 @@ func main() {
 	}
 	r.Set("outcome_classes", oc)
 	r.Set("forbidden_discards", forbidden.Load())
-	r.Rule("full product epoch 0..10 x unpaidSince -1..12 x payments on/off x 5 source answers x payment-check error y/n through each of shard epoch handler, engine start-up cleanup, policer container-missing branch (3 x 3080) + 3388 two-event histories through the shard handler; every case on a private copy of a real shard image (container A under test, control container B); non-trivial = an unpaid mark exists or the source did not answer 'found'")
-	r.Exhaustive(true)
-	r.Assume("the payments stub returns (0, err) on a payment-check error like cmd/neofs-node's paymentChecker",
+	r.Rule("full product epoch 0..10 x unpaidSince -1..12 x payments on/off x 5 source answers x payment-check error y/n through each of shard epoch handler, engine start-up cleanup, policer container-missing branch (3 x 3080) + 3388 two-event histories through the shard handler; + supplier histories (see assumptions) to depth " + fmt.Sprint(supDepth) + " through cmd/neofs-node's real paymentChecker; every case on a private copy of a real shard image (container A under test, control container B); non-trivial = an unpaid mark exists or the source did not answer 'found'")
+	r.Exhaustive(supComplete)
+	r.Assume("supplier histories: every sequence (ending in an epoch event) up to the depth over {chain answers for the container: fails / paid / unpaid since 0 / unpaid since now / unpaid since now+1; direct UnpaidSince query as the PUT path does; ChangePaymentStatus event unpaid@now / paid; resetCache; basic income rate zero / unreadable / on; epoch+1; epoch+3}, each on the node's real paymentChecker built by initPaymentChecker, the chain scripted at (*morph client).TestInvoke, the real shard new-epoch handler; oracle = discard only if the last SUCCESSFUL information (read or event) says unpaid since e, e <= E, E-e >= 3, payments not disabled",
+		"the payments stub returns (0, err) on a payment-check error like cmd/neofs-node's paymentChecker",
 		"the container source / policer network are table-driven fakes plugged through the exported interfaces; 'definitively absent' = error chain contains apistatus.ContainerNotFound",
 		"discard = an object of the container stops being readable via Shard.Get or its blob file disappears after 3 synchronous GC passes")
 	finish()
